@@ -219,7 +219,7 @@ func init() {
 		name:   "paillier.PublicKey",
 		weight: 2,
 		gen: func(r *Rng) (*paillier.PublicKey, error) {
-			bits := []int{3072, 3072, 3073, 3080, 4096}[r.IntN(5)]
+			bits := []int{3072, 3072, 3072, 3073, 3080, 4096}[r.IntN(6)]
 			buf := make([]byte, (bits+7)/8)
 			_, _ = r.Read(buf)
 			n := new(big.Int).SetBytes(buf)
